@@ -93,6 +93,109 @@ theorem lineStep_error_line (inc : IncludeFn) (cur : Str) (incs : List Str) (st 
         exact directive_error_line inc cur incs _ d ops (idx + 1) e hd h
     · simp at h
 
+/-! ### the message list only ever grows at its end, through the whole parse -/
+
+/-- "the messages recorded so far are kept, in order" -/
+def Grows (a b : List Str) : Prop := ∃ extra, b = a ++ extra
+
+theorem Grows.refl (a : List Str) : Grows a a := ⟨[], by simp⟩
+theorem Grows.trans {a b c : List Str} (h1 : Grows a b) (h2 : Grows b c) : Grows a c := by
+  obtain ⟨x, rfl⟩ := h1; obtain ⟨y, rfl⟩ := h2; exact ⟨x ++ y, by simp⟩
+
+/-- an include handler that keeps the messages -/
+def IncGrows (inc : IncludeFn) : Prop := ∀ p i st r, inc p i st = .ok r → Grows st.messages r.1.messages
+
+theorem directive_grows (inc : IncludeFn) (hinc : IncGrows inc) (cur : Str) (incs : List Str) (st : PState)
+    (d : Directive) (ops : DirectiveOps) (ln : Nat) (r : PState × List Str × NextItem)
+    (h : directiveParse inc cur incs st d ops ln = .ok r) : Grows st.messages r.1.messages := by
+  by_cases hd : d = .include
+  · subst hd
+    unfold directiveParse at h
+    dsimp only at h
+    repeat' split at h
+    all_goals first
+      | (simp [lineErr] at h; done)
+      | (rename_i heq; simp only [Out.ok.injEq] at h; subst h; exact hinc _ _ _ _ heq)
+  · obtain ⟨x, hx⟩ := directive_messages_grow inc cur incs st d ops ln r hd h
+    exact ⟨x, hx⟩
+
+theorem pushToLast_messages (st : PState) (ln : Nat) (it : Item) : (st.pushToLast ln it).messages = st.messages := by
+  simp [PState.pushToLast, modifyLast_messages]
+
+theorem lineStep_grows (inc : IncludeFn) (hinc : IncGrows inc) (cur : Str) (incs : List Str) (st : PState)
+    (idx : Nat) (text : Str) (re : Bool) (r : PState × List Str × NextItem)
+    (h : lineStep inc cur incs st idx text re = .ok r) : Grows st.messages r.1.messages := by
+  unfold lineStep at h
+  dsimp only at h
+  repeat' split at h
+  all_goals first
+    | (simp [lineErr] at h; done)
+    | (simp only [Out.ok.injEq] at h; subst h; simp only [pushToLast_messages]; exact Grows.refl _)
+    | (have := directive_grows inc hinc _ _ _ _ _ _ _ h; simpa only [pushToLast_messages] using this)
+
+theorem skipStep_messages (st : PState) (ni : NextItem) (ls : List (Nat × Str)) :
+    (skipStep st ni ls).1.messages = st.messages := by
+  unfold skipStep
+  cases ni <;> simp
+  · split <;> rfl
+
+theorem loop_grows (inc : IncludeFn) (hinc : IncGrows inc) (cur : Str) :
+    ∀ (f : Nat) (incs : List Str) (st : PState) (ni : NextItem) (ls : List (Nat × Str)) (r : PState × List Str),
+      parseIterWith inc cur f incs st ni ls = .ok r → Grows st.messages r.1.messages := by
+  intro f
+  induction f with
+  | zero => intro incs st ni ls r h; simp [parseIterWith] at h
+  | succ f ih =>
+    intro incs st ni ls r h
+    simp only [parseIterWith] at h
+    have hsk := skipStep_messages st ni ls
+    cases hs : skipStep st ni ls with
+    | mk st1 t =>
+      obtain ⟨nx, re, rest, o⟩ := t
+      rw [hs] at h hsk
+      simp only at hsk
+      cases o with
+      | true => simp at h
+      | false =>
+        cases nx with
+        | none => simp only [Out.ok.injEq] at h; subst h; rw [← hsk]; exact Grows.refl _
+        | some line =>
+          obtain ⟨idx, text⟩ := line
+          simp only at h
+          cases hl : lineStep inc cur incs st1 idx text re with
+          | ok v =>
+            obtain ⟨st', incs', ni'⟩ := v
+            rw [hl] at h
+            have h1 := lineStep_grows inc hinc cur incs st1 idx text re _ hl
+            have h2 := ih _ _ _ _ _ h
+            rw [← hsk]; exact h1.trans h2
+          | error e => rw [hl] at h; simp at h
+          | panic p => rw [hl] at h; simp at h
+          | oof => rw [hl] at h; simp at h
+
+/-- files, to any include depth: the messages assembled before an `.include` stay in front of
+    the file's own, which stay in front of everything after it -/
+theorem file_grows (fs : Fs) : ∀ (d : Nat), IncGrows (parseFileAt fs d) := by
+  intro d
+  induction d with
+  | zero => intro p i st r h; simp [parseFileAt] at h
+  | succ d ih =>
+    intro p i st r h
+    unfold parseFileAt at h
+    dsimp only at h
+    repeat' split at h
+    all_goals first
+      | (simp at h; done)
+      | (simp only [Out.ok.injEq] at h; subst h
+         have hg := loop_grows _ ih _ _ _ _ _ _ _ ‹parseIterWith _ _ _ _ _ _ _ = Out.ok _›
+         exact hg)
+
+/-- the whole parse of a source text keeps the messages in the order their lines were assembled -/
+theorem parse_messages_in_order (fs : Fs) (cur : Str) (incs : List Str) (st : PState) (ni : NextItem)
+    (ls : List (Nat × Str)) (r : PState × List Str) (h : parseIter fs cur incs st ni ls = .ok r) :
+    Grows st.messages r.1.messages :=
+  loop_grows _ (file_grows fs includeDepth) _ _ _ _ _ _ _ h
+
 /-! ### errors of pass 2 name the line of the item that failed -/
 
 theorem pass2_error_names_item (t : SegT) : ∀ (items : List (Nat × Item)) (cur : Nat) (acc : List Nat) (ctx : Ctx)
